@@ -366,6 +366,9 @@ func c20CheckValue(env *h.Env, c *c20ValueCase) error {
 type c20StreamCase struct {
 	Packets []*c20Packet `json:"packets"`
 	Frag    []int        `json:"frag"` // read sizes, cycled
+	// Reuse: one Packet value is re-filled field by field and sent again (its
+	// size is also asked for in between), as a caller that recycles its messages does
+	Reuse bool `json:"reuse,omitempty"`
 }
 
 type fragReader struct {
@@ -411,6 +414,7 @@ func genC20Stream(t *rapid.T) *c20StreamCase {
 	default:
 		c.Frag = []int{3, 1 << 20}
 	}
+	c.Reuse = rapid.IntRange(0, 3).Draw(t, "reuse") == 0
 	return c
 }
 
@@ -420,9 +424,15 @@ func c20CheckStream(env *h.Env, c *c20StreamCase) error {
 	var own bytes.Buffer
 	var sent []*types.Packet
 	big := false
+	recycled := &types.Packet{}
 	for _, mp := range c.Packets {
 		p := mp.build(false)
 		sent = append(sent, p)
+		if c.Reuse {
+			recycled.Type, recycled.Stat, recycled.ID, recycled.Data = p.Type, p.Stat, p.ID, p.Data
+			_ = recycled.Size()
+			p = recycled
+		}
 		if err := func() (err error) {
 			defer func() {
 				if r := recover(); r != nil {
@@ -433,7 +443,7 @@ func c20CheckStream(env *h.Env, c *c20StreamCase) error {
 		}(); err != nil {
 			return fmt.Errorf("protoStream.SendMsg: %v", err)
 		}
-		enc, _ := p.MarshalVT()
+		enc, _ := sent[len(sent)-1].MarshalVT()
 		var hd [4]byte
 		binary.BigEndian.PutUint32(hd[:], uint32(len(enc)))
 		own.Write(hd[:])
@@ -457,6 +467,10 @@ func c20CheckStream(env *h.Env, c *c20StreamCase) error {
 	}
 	if big {
 		env.Class("packet>32KiB")
+	}
+	if c.Reuse && len(c.Packets) > 1 {
+		env.Class("recycled-packet-value")
+		env.NonTrivial()
 	}
 	if splitsHeader {
 		env.Class("header-split")
